@@ -195,6 +195,29 @@ def run(ctx):
                         handle(case, S.ss_envs(e), 'corr:' + A.shape(e) + f'|{op1}{op2}{conn}{swapped}', 'correlated')
                         ctx.count('correlated_terms')
 
+    # 1c. a term compared with a simple function of itself (the simplifier's "obviously different" rules)
+    X, V = A.fld('x'), ('field', A.var('A'), 'v')
+    idx = 0
+    for base in (X, V, ('bin', '+', X, A.fld('y'))):
+        for k in ('0', '1', '2', '0.5'):
+            K = A.num(k)
+            variants = [('bin', '*', base, K), ('bin', '/', base, K), ('bin', '**', base, K), ('bin', '+', base, K),
+                        ('bin', '-', base, K), ('bin', '*', K, base), ('bin', '-', K, base), ('bin', '+', K, base),
+                        ('bin', '**', K, base), A.neg(base), A.neg(A.neg(base)), ('call', 'abs', (base,)),
+                        ('bin', '*', base, A.neg(K)), ('bin', '-', base, base), ('bin', '/', base, base)]
+            for f in variants:
+                for op in relops:
+                    for flip in (False, True):
+                        idx += 1
+                        if not ctx.mine(idx):
+                            continue
+                        e = ('bin', op, base, f) if flip else ('bin', op, f, base)
+                        if idx % 4 == 0:
+                            e = ('bin', gen.pick(rng, ('and', 'or', 'iff', 'implies')), e, A.not_(e) if idx % 8 == 0 else A.fld('p'))
+                        case = S.Case(e, S.SS_THIS, {'A': S.SS_ALIAS}, 'predicate' if idx % 5 == 0 else 'expression')
+                        handle(case, S.ss_envs(e), 'self:' + A.shape(e) + f'|{k}{op}{flip}', 'self-comparison')
+                        ctx.count('self_comparison_terms')
+
     # 2. random typed terms, simplifier-biased
     for n in range(ctx.share(B['random'])):
         t = gen.pick(rng, (gen.BOOL, gen.BOOL, gen.BOOL, gen.NUM, gen.NUM, gen.STR))
